@@ -2,6 +2,7 @@ package main
 
 import (
 	"fmt"
+	"os"
 	"go/constant"
 	"go/token"
 	"go/types"
@@ -28,6 +29,9 @@ type Stats struct {
 	FeasQueries, PropQueries, XQueries     int
 	TrivialAsserts, NontrivialAsserts      int
 	Unknown                                int
+	OneShot                                int
+	Hist                                   [5]int
+	HistT                                  [2]time.Duration
 	Merged                                 int
 	SolverTime                             time.Duration
 	MaxUnwind                              map[string]int
@@ -42,6 +46,7 @@ type Stats struct {
 	Samples                                []map[string]interface{}
 	CosimCases                             []CosimCase
 	PropQueryKeys                          map[string]bool
+	ForkSites                              map[string]int
 }
 
 func newStats() *Stats {
@@ -67,6 +72,8 @@ type Config struct {
 	concrete     map[string]interface{}
 	prefix       []int
 	split        int
+	Props        map[string]bool
+	ExactSwr     bool
 }
 
 type Worker struct {
@@ -85,16 +92,24 @@ type Worker struct {
 	idle    func() bool
 	traces  [][]string
 	shareTick int
+	oneShotVals map[int]string
+	hardStreak  int
+	hardTick    int
 }
 
 func NewWorker(p *Program, cfg *Config) *Worker {
 	w := &Worker{prog: p, tc: NewTermCtx(), cfg: cfg, st: newStats()}
-	w.sol = NewSolver(Z3, w.tc, cfg.TimeoutMs)
+	w.sol = NewSolver(primarySolver(), w.tc, primaryLimitMs)
 	return w
 }
 
 func (w *Worker) Close() {
 	w.st.SolverTime = w.sol.Time
+	for i, v := range w.sol.Hist {
+		w.st.Hist[i] += v
+	}
+	w.st.HistT[0] += w.sol.HistT[0]
+	w.st.HistT[1] += w.sol.HistT[1]
 	w.sol.Close()
 	if w.xsol != nil {
 		w.st.SolverTime += w.xsol.Time
@@ -106,10 +121,36 @@ func (w *Worker) Close() {
 	}
 }
 
+// check decides a feasibility query. Portfolio: the incremental primary solver with a short
+// per-query limit; if it gives up, a one-shot cvc5 with integer-blasting (which decides the
+// wrap-around-heavy time arithmetic quickly). "unknown" after both keeps the branch (sound).
 func (w *Worker) check(pc *PC, extra ...*Term) string {
-	lits := append(pc.lits(), extra...)
 	w.st.FeasQueries++
-	return w.sol.Check(lits)
+	if w.hardStreak < 3 {
+		r := w.sol.CheckPC(pc, extra...)
+		if r != "unknown" {
+			if w.hardStreak > 0 {
+				w.hardStreak--
+			}
+			return r
+		}
+		w.hardStreak += 2
+	} else {
+		w.hardTick++
+		if w.hardTick%16 == 0 {
+			w.hardStreak = 0 // probe the primary again now and then
+		}
+	}
+	w.st.OneShot++
+	lits := append(pc.lits(), extra...)
+	for _, l := range lits {
+		if l.HasFP {
+			r, _ := w.sol.OneShotKind(Z3, lits, nil, w.cfg.TimeoutMs)
+			return r
+		}
+	}
+	r, _ := w.sol.OneShotKind(CVC5Int, lits, nil, w.cfg.TimeoutMs)
+	return r
 }
 
 // ---------- decisions and forking ----------
@@ -195,6 +236,9 @@ func (w *Worker) branch(s *State, cond *Term) bool {
 	}
 	switch {
 	case feasT && feasF:
+		if w.st.ForkSites != nil {
+			w.st.ForkSites[w.where(s)]++
+		}
 		c := s.clone()
 		c.forced = append(append([]int(nil), s.made...), 1)
 		c.made = nil
@@ -974,7 +1018,7 @@ func (w *Worker) goStmt(s *State, f *Frame, x *ssa.Go) bool {
 // its decision trail; the receiving worker re-executes from the initial state with those
 // decisions forced (no solver queries on the replayed prefix).
 func (w *Worker) shareWork() {
-	if w.export == nil || w.idle == nil || len(w.stack) < 2 || w.cfg.MergeAt != nil {
+	if w.export == nil || w.idle == nil || len(w.stack) < 2 {
 		return
 	}
 	w.shareTick++
@@ -982,6 +1026,16 @@ func (w *Worker) shareWork() {
 		return
 	}
 	n := len(w.stack) / 2
+	// states that went through a merge point are not representable by a decision trail
+	for i := 0; i < n; i++ {
+		if w.stack[i].merged {
+			n = i
+			break
+		}
+	}
+	if n == 0 {
+		return
+	}
 	for _, c := range w.stack[:n] {
 		full := make([]int, 0, len(c.trail)+len(c.forced))
 		for _, d := range c.trail {
@@ -992,3 +1046,17 @@ func (w *Worker) shareWork() {
 	}
 	w.stack = append([]*State(nil), w.stack[n:]...)
 }
+
+func primarySolver() SolverKind {
+	switch os.Getenv("SYMGO_SOLVER") {
+	case "cvc5":
+		return CVC5
+	case "z3new":
+		return Z3New
+	}
+	return Z3
+}
+
+// primaryLimitMs is the per-query limit of the incremental primary solver; harder queries go to
+// the one-shot fallbacks with the configured (long) limit.
+const primaryLimitMs = 1500
